@@ -116,6 +116,11 @@ META.update({
 "C03":dict(breaks="C03: the barycentric weights placing element-interior nodes in create_higher_order_mesh_from_simplex_mesh use the textbook convention (vertex 0 at the parent origin) instead of the library's (vertex 2 at the origin): interior nodes get each other's coordinates",
   needs="an element with at least three interior nodes (plain order 4-5, or bubble order 3-5) AND interpolation of a nodal field / an x-dependent integrand; areas, partition of unity and shape gradients are untouched; orders <= 3 without bubble (all upstream tests) never reach the branch"),
 })
+
+META.update({
+"C03b":dict(breaks="C03: compute_element_volumes_axisymmetric takes the radius at the quadrature points from the vertex nodes and vertex shape functions only ('elements are affine'): exact for linear triangles, wrong for order >= 2 or bubble elements where the vertex functions alone do not reproduce a linear field",
+  needs="mode2D='axisymmetric' AND element order >= 2 (or bubble); Cartesian mode and linear axisymmetric elements (the only axisymmetric configuration the upstream tests use) are unchanged"),
+})
 for pid in sys.argv[1:]:
     p='/verif/seeded/%s/meta.json'%pid
     if not os.path.exists(p): print('no meta for',pid); continue
